@@ -20,12 +20,14 @@ def run(ctx):
     ctx.rule("C07.R4", "K5", "Body refills only through its reader; it never touches the unreader or the socket")
     ctx.rule("C07.R5", "K10", "buffers whose fill level is read through tell() are created empty (BytesIO(initial) leaves the position at 0)")
     ctx.rule("C07.R7", "K10", "(= C01.R4) no primitive more lenient than the byte semantics on body data (bytes.splitlines also splits at a bare CR, VT, FF ...)")
+    ctx.rule("C07.R8", "K4/K1", "one request parser per connection: it holds the read-ahead bytes and the unread body of the previous request -- gthread's TConn.init keeps an existing parser (evaluated); the async/sync handlers construct it outside the per-request loop")
     ctx.rule("C07.R6", "K11", "(= C06.R1-R3) the body readers obey the buffer discipline: whole-accumulator searches, exact residues, conserved split pairs")
     r1(ctx)
     r2(ctx)
     r3(ctx)
     r4(ctx)
     r5(ctx)
+    r8(ctx)
     from . import c06
     from .c10 import _alias
     for src in ("C06.R1", "C06.R2", "C06.R3"):
@@ -56,6 +58,39 @@ def r5(ctx):
                               "so the next refill overwrites the buffered bytes" % norm(c), "buffer created empty, filled with write()")
     ctx.floor("C07.R5", "BytesIO constructions in the http layer", n, 6)
     ctx.check("C07.R5", uses_tell, "tell-as-fill-level", "gunicorn/http: buffers", "the rule's premise (tell() used as fill level) no longer holds", "tell() is the fill level")
+
+
+def r8(ctx):
+    from ..absint import Explorer, Inst
+    repo = ctx.repo
+    RP = PARSER + ".RequestParser"
+    # gthread: init() runs before every request of a kept-alive connection
+    if repo.has_func("gunicorn.workers.gthread.TConn.init"):
+        f = ctx.fn(repo.func("gunicorn.workers.gthread.TConn.init"))
+        g = f.cfg
+        P0, S0 = Inst(RP), Inst("socket.socket")
+        tracked = ["self.parser", "self.sock", "self.initialized"]
+        ex = Explorer(f, tracked=tracked)
+        outs = ex.run(g.entry, {"self.parser": P0, "self.sock": S0, "self.initialized": True, "self.cfg.is_ssl": True})
+        got = set((o.env.get("self.parser") is P0, o.env.get("self.sock") is S0) if o.kind == "return" else o.kind for o in outs)
+        ctx.check("C07.R8", got == {(True, True)}, key(f, "parser-kept"), site(f),
+                  "TConn.init() on a connection that already served a request %s: the parser (with the bytes read ahead and the unread body of the previous request) is thrown away, "
+                  "the next request is not parsed from the first byte after the body" % ("replaces its parser / socket wrapper" if got != {(True, True)} else ""), "existing parser and socket kept")
+        ex = Explorer(f, tracked=tracked)
+        outs = ex.run(g.entry, {"self.parser": None, "self.initialized": False, "self.cfg.is_ssl": False})
+        got = set((o.env.get("self.parser") is not None) if o.kind == "return" else o.kind for o in outs)
+        ctx.check("C07.R8", got == {True}, key(f, "parser-created"), site(f), "TConn.init() on a fresh connection does not create a parser", "parser created on first use")
+    # handlers that serve several requests per connection: the parser is constructed before the request loop
+    for q in ("gunicorn.workers.base_async.AsyncWorker.handle", "gunicorn.workers.sync.SyncWorker.handle"):
+        if not repo.has_func(q):
+            continue
+        f = ctx.fn(repo.func(q))
+        cons = [c for c, t in repo.calls_in(f) if t and repo.canonical(t) == RP]
+        ctx.check("C07.R8", len(cons) == 1, key(f, "one-parser"), site(f), "%s constructs %d request parsers per connection (exactly one required)" % (f.short, len(cons)), "one parser per connection")
+        for c in cons:
+            lp = f.module.enclosing(c, (ast.While, ast.For))
+            ctx.check("C07.R8", lp is None, key(f, "parser-outside-loop"), site(f, c), "the request parser is constructed inside the per-request loop of %s: read-ahead bytes and the unread body of the previous request are lost" % f.short,
+                      "constructed before the loop")
 
 
 def r1(ctx):
